@@ -504,13 +504,19 @@ def dumpsObj (cfg : DumpCfg) (fr : F → List Char) : List (Str × J) → List (
   | (k, v) :: r => (dumpsStr k ++ cfg.keySep ++ dumps cfg fr v) :: dumpsObj cfg fr r
 end
 
-/-- `batch_message_from_parts(messages)`: `b'[' + b', '.join(messages) + b']'` -/
-def batchFromParts (parts : List (List Char)) : List Char :=
-  '[' :: (joinWith [',', ' '] parts ++ [']'])
+/-- `batch_message_from_parts(messages)`: `b'[' + sep.join(messages) + b']'`; the separator
+(`b', '` in the pinned tree) is a call-site fact -/
+def batchFromParts (sep : List Char) (parts : List (List Char)) : List Char :=
+  '[' :: (joinWith sep parts ++ [']'])
+
+/-- a legal element separator of a JSON array that keeps the message on one line: exactly one
+comma, otherwise blanks/tabs -/
+def sepOK (sep : List Char) : Bool :=
+  sep.all (fun c => c = ',' || c = ' ' || c = '\t') && sep.count ',' == 1
 
 /-- bytes of a `Reply` -/
-def Reply.bytes (cfg : DumpCfg) (fr : F → List Char) : Reply → List Char
+def Reply.bytes (cfg : DumpCfg) (sep : List Char) (fr : F → List Char) : Reply → List Char
   | .single p => dumps cfg fr p
-  | .batch ps => batchFromParts (ps.map (dumps cfg fr))
+  | .batch ps => batchFromParts sep (ps.map (dumps cfg fr))
 
 end Aiorpcx.C04
